@@ -69,6 +69,13 @@ func GenesisAll(r *kit.Run, rng *rand.Rand, pal *Palette) {
 					}
 				}
 			}
+			if first.Ok && rd.Probe != nil {
+				if hdrs, err := rd.Probe(p1, rng); err == nil {
+					w.E.Height++
+					w.E.Call(utils.HeaderSyncContractAddress, hscommon.SYNC_BLOCK_HEADER, gs.SyncArgs(id, owner.Addr, hdrs), pk.Single(owner))
+					r.Count("router_workload:genesis-header-probe:"+rd.Name, 1)
+				}
+			}
 			// second installation attempt
 			w.E.Height++
 			g2 := g1
